@@ -164,6 +164,22 @@ def jInfo (j : Json) : Except String SaveInfo := do
 def ofInfo (i : SaveInfo) : Json := Json.mkObj [
   ("total", ofInt i.totalAssignments), ("polya", ofInt i.polyaAssignments), ("groups", ofList ofS i.readGroups)]
 
+/-- lexicographic order on code-point lists (Python's order on `str`) -/
+def cpsLt : List Nat → List Nat → Bool
+  | [], [] => false
+  | [], _ :: _ => true
+  | _ :: _, [] => false
+  | a :: as, b :: bs => if a < b then true else if b < a then false else cpsLt as bs
+
+def cpsInsert (x : List Nat) : List (List Nat) → List (List Nat)
+  | [] => [x]
+  | y :: ys => if x == y then y :: ys else if cpsLt x y then x :: y :: ys else y :: cpsInsert x ys
+
+/-- canonical form of what `load_read_info` returns (`set(read_list(...))`): the groups sorted, duplicates dropped -/
+def ofInfoSet (i : SaveInfo) : Json := Json.mkObj [
+  ("total", ofInt i.totalAssignments), ("polya", ofInt i.polyaAssignments),
+  ("groups", ofList ofNatList ((i.readGroups.map (fun s => s.toList.map (·.toNat))).foldr cpsInsert []))]
+
 /-! ### reuse clause (Model/Reuse.lean): strings are interned by position in a table sent with the request -/
 
 /-- `table` = the strings of the case (chromosome names first, in processing order); `derive` = per gene-id list of
@@ -244,11 +260,11 @@ def ops : List (String × Handler) := [
   ("enc_multimap", wr (jList (jList jBasic)) writeMultimap),
   ("load_multimap", rd loadMultimap (ofList (ofList ofBasic))),
   ("enc_info", wr jInfo writeSaveInfo),
-  ("dec_info", rd readSaveInfo ofInfo),
+  ("dec_info", rd readSaveInfo ofInfoSet),
   ("collect_reads", fun j => do
       let E ← jEnv j
       match collectReads E (← jBool (← arg j "high_memory")) (← jList jS (← arg j "read_groups"))
-              (← jList jChrIn (← arg j "chroms")) with
+              (← jNat (← arg j "unaligned")) (← jList jChrIn (← arg j "chroms")) with
       | some f => pure (ofSaved f)
       | none => pure (jErr "error")),
   ("process_saved", fun j => do
@@ -258,6 +274,22 @@ def ops : List (String × Handler) := [
               (← jSaved (← arg j "files")) with
       | some o => pure (ofRunOut o)
       | none => pure (jErr "error")),
+  ("restart_run", fun j => do
+      let E ← jEnv j
+      let cfg ← C12.jConfig (← arg j "cfg")
+      match restartRun E cfg (← jList jS (← arg j "names")) (← jSaved (← arg j "files")) with
+      | some o => pure (ofRunOut o)
+      | none => pure (jErr "error")),
+  ("restart_run_orig", fun j => do
+      let E ← jEnv j
+      let cfg ← C12.jConfig (← arg j "cfg")
+      match restartRunOrig E cfg (← jList jS (← arg j "names")) (← jSaved (← arg j "files")) with
+      | some o => pure (ofRunOut o)
+      | none => pure (jErr "error")),
+  ("enc_info_file", fun j => do
+      let x ← arg j "x"
+      pure (ofW (writeInfoFile (← jInfo x) (← jInt (← arg x "unaligned"))))),
+  ("dec_unaligned", rd readUnaligned ofInt),
   ("saving_run", fun j => do
       let E ← jEnv j
       let cfg ← C12.jConfig (← arg j "cfg")
